@@ -460,13 +460,13 @@ func (c *SpecCtx) ident(name string) SV {
 	if v, ok := c.vars[name]; ok {
 		return v
 	}
+	if v, ok := c.entry[name]; ok {
+		return v
+	}
 	if c.fr != nil && !c.inOld {
 		if cell, ok := c.fr.Cells[name]; ok {
 			return SV{V: c.st.Cells[cell], T: cell.Typ}
 		}
-	}
-	if v, ok := c.entry[name]; ok {
-		return v
 	}
 	// package-level variables / constants
 	if m, ok := e.pkg.Members[name]; ok {
@@ -665,11 +665,134 @@ func (c *SpecCtx) call(n *ast.CallExpr) SV {
 		return SV{V: And(Not(Eq(mt, NilOf(SRef))), e.mapHas(c.st, ml, mt, k))}
 	case "int":
 		return SV{V: c.intArg(n.Args[0]), T: types.Typ[types.Int]}
-	case "u32", "u64", "i32":
-		w := map[string]int{"u32": 32, "u64": 64, "i32": 32}[fn.Name]
+	case "is":
+		// is(x, T): dynamic type test of an interface value
+		tk := sanitize(typeKey(c.lookupType(exprString(n.Args[1]))))
+		x := c.coerceTo(c.eval(n.Args[0]), SAny)
+		return SV{V: App(SBool, e.namedFun("is_"+tk, []Sort{SAny}, SBool), x)}
+	case "field":
+		// field(x, T, f): field f of the struct of type T held in interface value x
+		ty := c.lookupType(exprString(n.Args[1]))
+		tk := sanitize(typeKey(ty))
+		x := c.coerceTo(c.eval(n.Args[0]), SAny)
+		fname := exprString(n.Args[2])
+		st := ty.Underlying().(*types.Struct)
+		for i := 0; i < st.NumFields(); i++ {
+			if st.Field(i).Name() == fname {
+				so := e.sortOf(st.Field(i).Type())
+				return SV{V: App(so, e.namedFun("unbox_"+tk+"_"+fname, []Sort{SAny}, so), x), T: st.Field(i).Type()}
+			}
+		}
+		return c.bad("field: no %s", fname)
+	case "lastres":
+		// lastres(f, i): i-th result of the latest call of function value f
+		fv := c.eval(n.Args[0])
+		f := c.coerceScalar(fv)
+		i := c.intArg(n.Args[1])
+		if v, ok := c.st.Ghost["res:"+f.S+":"+i.S]; ok {
+			sv := SV{V: v}
+			if sig, ok := fv.T.Underlying().(*types.Signature); ok {
+				k, _ := strconv.Atoi(i.S)
+				if k < sig.Results().Len() {
+					sv.T = sig.Results().At(k).Type()
+				}
+			}
+			return sv
+		}
+		if fv.T != nil {
+			if sig, ok := fv.T.Underlying().(*types.Signature); ok {
+				k, _ := strconv.Atoi(i.S)
+				if k < sig.Results().Len() {
+					pt := sig.Results().At(k).Type()
+					// stable per path: remember it
+					v := c.e.freshVal(c.st, pt, "nores")
+					c.st.Ghost["res:"+f.S+":"+i.S] = v
+					return SV{V: v, T: pt}
+				}
+			}
+		}
+		return c.bad("lastres: unknown function value")
+	case "lastrand":
+		if v, ok := c.st.Ghost["rand.last"]; ok {
+			return SV{V: v, T: types.Typ[types.Int64]}
+		}
+		return SV{V: c.e.freshVal(c.st, types.Typ[types.Int64], "norand"), T: types.Typ[types.Int64]}
+	case "captured":
+		// captured(closure, name): current value of the variable a closure captured
+		cv := c.eval(n.Args[0])
+		cl, ok := cv.V.(*Closure)
+		if !ok {
+			if t, isT := cv.V.(T); isT {
+				cl = e.closures[t.S]
+			}
+		}
+		if cl == nil {
+			return c.bad("captured: not a closure created in this function")
+		}
+		name := exprString(n.Args[1])
+		for i, fv := range cl.Fn.FreeVars {
+			if fv.Name() == name && i < len(cl.Binds) {
+				if a, ok := cl.Binds[i].(*Addr); ok && a.Kind == ACell {
+					return SV{V: c.st.Cells[a.Cell], T: a.Cell.Typ}
+				}
+				return SV{V: cl.Binds[i], T: fv.Type()}
+			}
+		}
+		return c.bad("captured: closure has no free variable %s", name)
+	case "lasterr":
+		// lasterr(ctx): what the most recent ctx.Err() on this path (since the last loop cut) returned
+		x := c.coerceTo(c.eval(n.Args[0]), SAny)
+		if v, ok := c.st.Ghost["ctxerr.last:"+x.S]; ok {
+			return SV{V: v}
+		}
+		return SV{V: c.e.freshConst("noerrcheck", SAny)}
+	case "cancelled":
+		x := c.coerceTo(c.eval(n.Args[0]), SAny)
+		r := &Run{e: e}
+		return SV{V: r.cancelled(c.st, x)}
+	case "calls":
+		// calls(f): number of calls of the function value f made so far on this path
+		f := c.coerceTo(c.eval(n.Args[0]), SFn)
+		return SV{V: e.regionRead(c.st, "cnt.calls", []Sort{SFn}, SInt, f), T: types.Typ[types.Int]}
+	case "lastarg":
+		// lastarg(f, i): i-th argument of the latest call of f
+		fv := c.eval(n.Args[0])
+		f := c.coerceScalar(fv)
+		i := c.intArg(n.Args[1])
+		if _, ok := c.st.Ghost["arg:"+f.S+":"+i.S]; !ok && fv.T != nil {
+			// not called on this path: an arbitrary value of the parameter type (the clause must guard it)
+			if sig, ok := fv.T.Underlying().(*types.Signature); ok {
+				k, _ := strconv.Atoi(i.S)
+				if k < sig.Params().Len() {
+					pt := sig.Params().At(k).Type()
+					v := c.e.freshVal(c.st, pt, "nocall")
+					sv := SV{V: v, T: pt}
+					return sv
+				}
+			}
+		}
+		if v, ok := c.st.Ghost["arg:"+f.S+":"+i.S]; ok {
+			sv := SV{V: v}
+			if st, ok := v.(*StructV); ok {
+				sv.T = st.Typ
+			}
+			if sig, ok := fv.T.Underlying().(*types.Signature); ok && fv.T != nil {
+				k, _ := strconv.Atoi(i.S)
+				if k < sig.Params().Len() {
+					sv.T = sig.Params().At(k).Type()
+				}
+			}
+			return sv
+		}
+		return c.bad("lastarg: %s was not called on this path", f.S)
+	case "u32", "u64", "i32", "i64":
+		w := map[string]int{"u32": 32, "u64": 64, "i32": 32, "i64": 64}[fn.Name]
 		v := c.eval(n.Args[0])
 		t := v.V.(T)
-		ty := map[string]types.Type{"u32": types.Typ[types.Uint32], "u64": types.Typ[types.Uint64], "i32": types.Typ[types.Int32]}[fn.Name]
+		ty := map[string]types.Type{"u32": types.Typ[types.Uint32], "u64": types.Typ[types.Uint64], "i32": types.Typ[types.Int32], "i64": types.Typ[types.Int64]}[fn.Name]
+		if !e.bv {
+			return SV{V: c.intArg(n.Args[0]), T: ty}
+		}
 		if t.So == "IntLit" {
 			return SV{V: c.coerceTo(v, BV(w)), T: ty}
 		}
